@@ -626,11 +626,11 @@ input::
         self._maxfun = kwds['maxfun'] if 'maxfun' in kwds else evaluations
         # handle if new (reset counter, instead of extend counter)
         if new:
-            if generations is not None:
+            if self._maxiter is not None:
                 self._maxiter += self.generations
             else:
                 self._maxiter = "*" #XXX: better as self._newmax = True ?
-            if evaluations is not None:
+            if self._maxfun is not None:
                 self._maxfun += self.evaluations
             else:
                 self._maxfun = "*"
